@@ -1,5 +1,6 @@
 //! Reference models and brute-force oracles.  Nothing in here calls petgraph.
 pub mod shapes;
 pub mod basic;
+pub mod multi;
 pub use basic::*;
 pub use shapes::*;
